@@ -67,6 +67,8 @@ inductive ShStep where
   | op (name : String) (o : SOp String)
   | swap
   | empty
+  | equals
+  | views
 
 def shPair? : Sexp → Option (String × String)
   | .list [k, v] => do let k' ← keyAtom? k; let v' ← intAtom? v; pure (k', v')
@@ -83,6 +85,8 @@ def shStep? : Sexp → Option (ShStep × List String)
   | .list [.atom "freeze"] => some (.op "freeze" .freeze, [])
   | .list [.atom "swap"] => some (.swap, [])
   | .list [.atom "empty"] => some (.empty, [])
+  | .list [.atom "equals"] => some (.equals, [])
+  | .list [.atom "views"] => some (.views, [])
   | _ => none
 
 def getStr : Out String → String
@@ -127,6 +131,16 @@ def runSh (steps : List ShStep) (uni : List String) : String := Id.run do
       | none => res := "skip"
       | some o => old := some cur; cur := o; res := "swap"
     | .empty => old := some cur; cur := SH.emptyFrozen; res := "empty"
+    | .equals =>
+      match old with
+      | none => res := "skip"
+      | some o =>
+        match cur.equals o, o.equals cur with
+        | some a, some b => res := "equals=" ++ boolStr a ++ "," ++ boolStr b
+        | _, _ => res := "equals=fault"; bad := true
+    | .views =>
+      res := "views=K[" ++ sp cur.keys ++ "] V[" ++ sp cur.values ++ "] " ++ boolStr cur.empty
+        ++ boolStr (cur.allPair fun _ v => v != "1") ++ boolStr (cur.anyPair fun _ v => v == "1")
     | .op name op =>
       let r := stepSHT shFacts cur op
       match op with
